@@ -57,8 +57,9 @@ EdgeGaps(fmt) == LET p == P(fmt)
                  IN  m \cup {0 - g : g \in m}
 Gaps(fmt) == IF Quick THEN EdgeGaps(fmt) ELSE (0 - (P(fmt) + 2))..(P(fmt) + 2)
 
-Sum == {<<"sum", f, g, px, py, m, sg[1], sg[2]>> :
-          f \in Fmts, g \in UNION {Gaps(ff) : ff \in Fmts}, px \in Pats, py \in FewPats, m \in Mags, sg \in Signs}
+\* (built per format: one comprehension over the union of all gaps exceeds TLC's 10^6 element limit; the
+\* initial predicate is a disjunction over the formats so that TLC never has to normalise one huge set)
+SumOf(f) == {<<"sum", f, g, px, py, m, sg[1], sg[2]>> : g \in Gaps(f), px \in Pats, py \in FewPats, m \in Mags, sg \in Signs}
 SumOK(t) == t[3] \in Gaps(t[2])
 
 Prod == {<<"prod", f, mx, my, px, py, sg[1], sg[2]>> :
@@ -75,9 +76,10 @@ Sum3 == {<<"sum3", f, g1, g2, px, sy, sz>> :
            px \in {"pow2", "ones", "rand"}, sy \in {0, 1}, sz \in {0, 1}}
 Sum3OK(t) == t[3] \in Gaps3(t[2]) /\ t[4] \in Gaps3(t[2])
 
-Cases == {t \in Sum : SumOK(t)} \cup Prod \cup ProdDense \cup Split \cup {t \in Sum3 : Sum3OK(t)}
+Others == Prod \cup ProdDense \cup Split \cup {t \in Sum3 : Sum3OK(t)}
 
-Init == c \in Cases
+Init == \/ c \in SumOf("float16") \/ c \in SumOf("float32") \/ c \in SumOf("float64")
+        \/ c \in Others
 Next == UNCHANGED c
 Spec == Init /\ [][Next]_c
 Emit == PrintT(<<"H", c>>)
